@@ -160,6 +160,17 @@ def check_C06(sc, v, tier, seed, replay):
     sc.run("rec-nassec", ["-seed", seed, "-tier", tier, "-out", trace])
     chunks = _group_chunks(trace, sc.work, "nassec", vlib.NCPU)
     rejects = _validate_chunks(sc, v, "TraceNasSec", chunks)
+    # (3) binding of the counter type itself (security.Count): every overflow value (thorough) x boundary sequence numbers, full rows sampled
+    ctrace = os.path.join(sc.work, "counts.ndjson")
+    sc.run("rec-nassec", ["-counts", "-seed", seed, "-tier", tier, "-out", ctrace])
+    cres, crej, clines = vlib.validate_trace(sc, "TraceNasSec", ctrace)
+    v.add_tlc(cres)
+    cevs = [json.loads(l) for l in clines]
+    v.extra["counter_values_checked"] = sum(len(e["sqns"]) for e in cevs)
+    v.evaluations += v.extra["counter_values_checked"]
+    for e in cevs:
+        v.distinct.add(canon(["count", e["ovf"], len(e["sqns"])]))
+    _reject_to_violation(v, crej, lambda r, e: "Count:ovf%d" % (e.get("ovf", -1) >> 8))
     evs = [json.loads(l) for c in chunks for l in c[1]]
     encs = [e for e in evs if e["ev"] == "Enc"]
     v.evaluations += len(encs)
@@ -168,7 +179,9 @@ def check_C06(sc, v, tier, seed, replay):
     v.samples = encs[:2]
     v.rule = ("seeded send histories through the real protection entry point: algorithm pairs {NIA1,NIA2}x{NEA0,NEA1,NEA2}, start COUNTs 0 / "
               "near the sequence-number wrap / near 2^16 / 2^24-5, new-context resets at chosen positions, header types 1..4, "
-              "no-context sends interleaved, plain messages from the real 5GMM/5GSM constructors; distinct = (history, step)")
+              "no-context sends interleaved, plain messages from the real 5GMM/5GSM constructors; the counter type security.Count over all 65536 overflow "
+              "values (quick: 417) x boundary sequence numbers (full rows of 256 sampled): Set/Get/SQN/Overflow/AddOne/SetSQN/SetOverflow; "
+              "distinct = (history, step) or counter row")
     v.assumptions = ["NasSec.tla is the TS 24.501 4.4.3-4.4.5 envelope; MCNasSec checks it exhaustively for small widths",
                      "NasAlg.tla as in C07"]
 
